@@ -232,6 +232,26 @@ def run(ctx):
                 ctx.obs["feedback_runs"] += 2
                 ctx.case({"s": gen.shape_of(spec), "fb": spec["feedback"], "x": x}, True)
             continue
+        if r < 0.38:
+            # a whole gated / cyclic program as ONE nested node of an outer graph (depth 1-2, fed and consumed by outer
+            # nodes, a sibling in flight): the trace rules are judged per nesting level
+            from hgmon import families
+
+            fam = families.compose(rng, families.pick(rng, ["gated", "gated", "loop", "lateclosed", "early-shared"]))
+            spec, base = fam["spec"], fam["inputs"]
+            spec.setdefault("selectors", [])
+            vectors = [dict(base)]
+            for k_, v_ in base.items():
+                if isinstance(v_, int) and not isinstance(v_, bool):
+                    for alt in range(3):
+                        if alt != v_:
+                            vectors.append({**base, k_: alt})
+            for inputs in vectors[:7]:
+                for runner in ("sync", "async"):
+                    one(ctx, spec, inputs, runner, rt.Sched(default="rand", rng=rng) if runner == "async" else None, f"compose-{runner}", with_proc=rng.random() < 0.3, max_iterations=200)
+                    ctx.obs["compose_runs"] += 1
+            ctx.case({"s": gen.shape_of(spec), "compose": fam["template"]}, True)
+            continue
         spec = gen.gen_gated(rng, deterministic=rng.random() < 0.6)
         if r < 0.5:
             spec = nest(spec, rng)
